@@ -28,15 +28,17 @@ Cmd(k) ==
     [] k = "schema" -> \E f \in BOOLEAN : Schema(f) /\ H([cmd |-> "schema", full |-> f])
     [] k = "server" -> \E c, p \in BOOLEAN : ServerStart(c, p) /\ H([cmd |-> "server", cache |-> c, preload |-> p])
     [] k = "stop"   -> ServerStop /\ H([cmd |-> "stop"])
+    [] k = "metrics" -> Metrics /\ H([cmd |-> "metrics"])
     [] k = "client" -> \E qs \in QLists : Client(qs) /\ H([cmd |-> "client", qs |-> qs])
     [] k = "driver" -> \E v \in {"file", "grpc"}, qs \in QLists : Driver(v, qs) /\ H([cmd |-> "driver", via |-> v, qs |-> qs])
-Kinds == {"create", "rm", "junk", "schema", "server", "stop", "client", "driver"}
+Kinds == {"create", "rm", "junk", "schema", "server", "stop", "client", "driver", "metrics"}
 Enabled(k) == CASE k = "rm" -> file.kind # "absent" [] k = "junk" -> file.kind = "absent" [] k = "server" -> ~srv.up [] k = "stop" -> srv.up [] OTHER -> TRUE
 Weight(k) == CASE k = "create" -> IF file.kind = "absent" THEN 3 ELSE 1
                [] k = "server" -> IF file.kind = "index" THEN 4 ELSE 1
-               [] k = "client" -> IF srv.up THEN 4 ELSE 1
+    [] k = "client" -> IF srv.up THEN 4 ELSE 1
                [] k = "driver" -> IF srv.up \/ file.kind = "index" THEN 4 ELSE 1
                [] k = "schema" -> IF file.kind = "index" THEN 2 ELSE 1
+               [] k = "metrics" -> IF srv.up /\ srv.execs > 0 THEN 2 ELSE 1
                [] OTHER -> 1
 Init == SInit /\ steps = 0 /\ hist = <<>> /\ pick = <<>>
 \* model checking: one command per step
